@@ -96,7 +96,7 @@ static void getters(zckCtx *z) {
 static std::string run_tool(const std::string &tool, const std::vector<std::string> &args, int cpu, std::string *sig);
 
 static void prop(Ctx &c) {
-    gen::ZFileOpts o; o.max_chunks = 6; o.max_chunk = 1500;
+    gen::ZFileOpts o; o.max_chunks = 6; o.max_chunk = 1500; o.big_rate = 10; o.big_huge = c.tier != 0;    // now and then a chunk larger than the library's 32 KiB buffers
     gen::ZFile base = gen::zfile(c, o);
     Input in = gen_input(c, &base);
     // second file: valid base, or another generated input
